@@ -29,6 +29,14 @@ DEV_TEXT = {
                     "sub-parser's own defaults+environment when the sub-command is reached",
 }
 DEV_TEXT["root-doc-append+dcf-over-env"] = DEV_TEXT["root-doc-append"] + " -- together with: " + DEV_TEXT["dcf-over-env"]
+DEV_TEXT["dcf-section-pruned"] = ("a root default config file with sections for SEVERAL sub-commands keeps only the section of the first DECLARED one when it is loaded (get_defaults parses it in the "
+                                  "single-sub-command mode); a later-declared sub-command that is NAMED on the command line gets none of the values the file holds for it (a.x = 0 instead of 8), "
+                                  "while the same sub-command selected by a config reads them through the parent lookup of handle_subcommands")
+DEV_TEXT["dcf-section-pruned+root-doc-append"] = DEV_TEXT["dcf-section-pruned"] + " -- together with: " + DEV_TEXT["root-doc-append"]
+DEV_TEXT["dcf-dotted-section-not-looked-up"] = ("the same file (sections for several sub-commands, `a` not the first declared) spelled with DOTTED keys ('a.x': 8): a sub-command selected by a config "
+                                                "does not get its values back either, because the parent lookup of the sub-parser takes the mapping under the key 'a' of the document and a "
+                                                "dotted-key document has none (a.x = 0, the nested spelling of the same file gives 8)")
+DEV_TEXT["dcf-dotted-section-not-looked-up+root-doc-append"] = DEV_TEXT["dcf-dotted-section-not-looked-up"] + " -- together with: " + DEV_TEXT["root-doc-append"]
 
 
 def doc_obj(asgs, dotted):
@@ -61,12 +69,16 @@ def run_sub_case(case):
             if k.startswith("APP_") or (k.startswith("JSONARGPARSE_") and k != common.GUARD):
                 del os.environ[k]
         os.chdir(tmp)
-        dotted = variant % 2 == 1
+        dotted = s["dotted"] == "yes" if s.get("dotted") in ("yes", "no") else variant % 2 == 1   # "any": the renderer chooses
         dcf = sdcf = None
-        if s["dcf"]:
+        root_doc = None
+        if s["dcf"] or s.get("other"):
+            root_doc = doc_obj(s["dcf"], dotted) if s["dcf"] else {}
+            if s.get("other"):   # the file also holds a section for the OTHER sub-command
+                root_doc.update({"b.y": 77} if dotted else {"b": {"y": 77}})
             dcf = os.path.join(tmp, "root-defaults.json")
             with open(dcf, "w") as fh:
-                json.dump(doc_obj(s["dcf"], dotted), fh)
+                json.dump(root_doc, fh)
         if s["sdcf"]:
             sdcf = os.path.join(tmp, "sub-defaults.json")
             with open(sdcf, "w") as fh:
@@ -84,12 +96,15 @@ def run_sub_case(case):
         pa.add_argument("--cfg", action=ActionConfigFile)
         pa.add_argument("--x", type=int, default=0)
         pa.add_argument("--l", type=List[int], default=[0])
-        sc.add_subcommand("a", pa)
         pb = ArgumentParser(exit_on_error=False)
         pb.add_argument("--y", type=int, default=0)
-        sc.add_subcommand("b", pb)
+        for name, sub_parser in ((("a", pa), ("b", pb)) if s.get("first", True) else (("b", pb), ("a", pa))):   # declaration order
+            sc.add_subcommand(name, sub_parser)
         argv = []
         nfile = 0
+        sel = s.get("sel", "name")
+        if sel == "key":
+            argv.append('--cfg={"subcommand": "a"}')
         for d in s["pre"]:
             text = json.dumps(doc_obj(d, dotted))
             if variant % 3 == 2:
@@ -100,7 +115,7 @@ def run_sub_case(case):
                 argv += ["--cfg", f]
             else:
                 argv.append("--cfg=" + text)
-        if s.get("named", True):
+        if sel == "name":
             argv.append("a")
         for it in s["post"]:
             if it["kind"] == "cfg":
@@ -119,8 +134,8 @@ def run_sub_case(case):
                 val = str(a["v"][0]) if (a["k"] == "x" or a["op"] == "app") else json.dumps(list(a["v"]))
                 argv += [name + "=" + val] if variant % 2 == 0 else [name, val]
         call = {"argv": [x if not x.startswith(tmp) else "<tmp>/" + os.path.basename(x) for x in argv], "env": env,
-                "root_default_config_file": doc_obj(s["dcf"], dotted) if s["dcf"] else None, "sub_default_config_file": sub_doc(s["sdcf"]) if s["sdcf"] else None,
-                "root_has_l": s["rootl"]}
+                "root_default_config_file": root_doc, "sub_default_config_file": sub_doc(s["sdcf"]) if s["sdcf"] else None,
+                "root_has_l": s["rootl"], "declared": ["a", "b"] if s.get("first", True) else ["b", "a"]}
         try:
             cfg = root.parse_args(argv)
         except ArgumentError as ex:
@@ -152,7 +167,8 @@ def history(s):
         parts.append("pre:" + "|".join("+".join(sorted(a["k"] + ("+" if a["op"] == "app" else "") for a in d)) for d in s["pre"]))
     if s["post"]:
         parts.append("post:" + "|".join(it["kind"] + ":" + "+".join(sorted(a["k"] + ("+" if a["op"] == "app" else "") for a in it["asgs"])) for it in s["post"]))
-    return ("rootl," if s["rootl"] else "") + ("" if s.get("named", True) else "unnamed,") + ",".join(parts)
+    return (("rootl," if s["rootl"] else "") + ("" if s.get("sel", "name") == "name" else "by-" + s["sel"] + ",") + ("" if s.get("first", True) else "second,")
+            + ("other-section," if s.get("other") else "") + ",".join(parts))
 
 
 def random_case(rnd):
@@ -182,8 +198,12 @@ def random_case(rnd):
             k = rnd.choice(["x", "l", "l"])
             post.append({"kind": "opt", "asgs": [{"k": k, "op": "set" if k == "x" else rnd.choice(["set", "app"]), "v": [t]}]})
     dcf = doc(8, True)
-    named = not (not post and (dcf or pre) and rnd.random() < 0.5)
-    return {"rootl": rnd.random() < 0.5, "sdcf": doc(9, True), "dcf": dcf, "env": env, "pre": pre, "post": post, "named": named}
+    first, other = rnd.random() < 0.5, bool(dcf) and rnd.random() < 0.4
+    sel = "name"
+    if not post and rnd.random() < 0.5:
+        sel = "key" if rnd.random() < 0.5 else ("section" if (dcf or pre) and not other else "name")
+    return {"rootl": rnd.random() < 0.5, "sdcf": doc(9, True), "dcf": dcf, "env": env, "pre": pre, "post": post, "sel": sel, "first": first, "other": other,
+            "dotted": rnd.choice(["yes", "no"])}
 
 
 def run(rep, tier, rnd):
@@ -200,8 +220,11 @@ def run(rep, tier, rnd):
     if len(got) != mc.init_states or not got:
         machinery_failure(PID, f"{cfgname}: emitted {len(got)} cases for {mc.init_states} initial states")
     got.sort(key=lambda c: json.dumps(c["s"], sort_keys=True))
-    cases = [{"s": c["s"], "ref": c["ref"], "alg": c["alg"], "dev": c["dev"], "variant": n % 6} for n, c in enumerate(got)]
-    if not {"none", "root-doc-append", "dcf-over-env"} <= {c["dev"] for c in cases}:
+    # the rendering variant is a digest of the case (a counter over the sorted cases correlates with the case's fields)
+    import hashlib
+    cases = [{"s": c["s"], "ref": c["ref"], "alg": c["alg"], "dev": c["dev"],
+              "variant": hashlib.blake2b(json.dumps(c["s"], sort_keys=True).encode(), digest_size=2).digest()[0] % 6} for c in got]
+    if not {"none", "root-doc-append", "dcf-over-env", "dcf-section-pruned"} <= {c["dev"] for c in cases}:
         machinery_failure(PID, f"vacuity: deviations in MC_SubSources: {sorted({c['dev'] for c in cases})}")
     rep.extra["sub_model_cases"] = len(cases)
     rep.extra["sub_model_cases_by_deviation"] = {d: sum(1 for c in cases if c["dev"] == d) for d in sorted({c["dev"] for c in cases})}
